@@ -177,6 +177,48 @@ def gen_script(rng, kind, metric, prm, dname, nops, maxn=60):
     return lines
 
 
+def gen_refill(rng, kind, metric, dname):
+    """generator class *remove-then-clear-then-refill*: fill, remove a few elements with the removal cache
+    not full, clear(), add the same values again in the same order (same allocation pattern, so freed leaf
+    buffers are reused), then size / list / nearestK(n+2) / nearestR(inf).  A removal cache that survives
+    clear() shows up as "size() is n and list() has n-r elements".  n varies around the leaf capacity
+    (below: one leaf; above: a split tree), r stays below the cache size; optionally a second round."""
+    deg, mn, mx = rng.range(2, 6), rng.range(2, 6), rng.range(2, 8)
+    leaf = max(rng.range(1, 8), deg, mx)
+    cache = rng.range(2, 6)
+    prm = {"deg": deg, "min": mn, "max": mx, "leaf": leaf, "cache": cache, "rebal": rng.below(2), "seed": rng.below(1000)}
+    d = Dist(rng, metric, dname)
+    lines = [header(kind, metric, prm)]
+    n = max(2, leaf + 1 + rng.range(-3, 4)) if not rng.chance(1, 4) else rng.range(2, 3 * leaf + 3)
+    pts = [d.point() for _ in range(n)]
+    bulk = rng.chance(1, 4)
+    rounds = 1 + rng.below(2)
+    q = d.point()
+    for _ in range(rounds):
+        fill = (["addv %d %s" % (n, " ".join(ps(p) for p in pts))] if bulk else ["add " + ps(p) for p in pts])
+        lines += fill
+        r = rng.range(1, max(1, min(cache - 1, n - 1)))
+        victims = []
+        pool = list(pts[1:])               # not the first element: it is the root pivot while the tree is one leaf
+        for _i in range(r):
+            if not pool:
+                break
+            v = rng.choice(pool)
+            pool.remove(v)
+            victims.append(v)
+        lines += ["rm " + ps(v) for v in victims]
+        if rng.chance(1, 3):
+            lines.append("nk %s %d" % (ps(q), n + 2))
+        lines.append("clear")
+        lines += fill
+        lines += ["size", "list", "nk %s %d" % (ps(q), n + 2), "nr %s %d" % (ps(q), HUGE)]
+        lines += ["nk %s 1" % ps(v) for v in victims]
+        lines.append("nst " + ps(victims[0] if victims else q))
+        if rounds > 1:
+            lines.append("clear")
+    return lines
+
+
 # ---------------------------------------------------------------------------------- dump parsing / GnatInv
 class Node:
     __slots__ = ("pivot", "prm", "deg", "rad", "ranges", "data", "children")
@@ -506,14 +548,74 @@ def correspondence(ck, script, out):
     return None
 
 
+def disagreement_probes(script, out, step, metric):
+    """probe scripts aimed by a model/implementation disagreement at operation `step` (0-based in script[1:]):
+    (A) the prefix followed by queries centred on every value held, size and list;
+    (B) the prefix, clear() (unless the disagreeing operation is one), the add/addv lines since the previous
+        clear() again *verbatim* (same order and sizes, so freed buffers are reused), then size / list / queries;
+    (C) like (B) but re-adding the values held at that moment one by one."""
+    ops = script[1:]
+    held, fill = [], []
+    dim = METRICS[metric][0]
+    for i, ln in enumerate(ops[:step + 1]):
+        t = ln.split()
+        if t[0] == "add":
+            held.append(tuple(map(int, t[1:1 + dim])))
+            fill.append(ln)
+        elif t[0] == "addv":
+            k = int(t[1])
+            held += [tuple(map(int, t[2 + j * dim:2 + (j + 1) * dim])) for j in range(k)]
+            fill.append(ln)
+        elif t[0] == "rm":
+            p = tuple(map(int, t[1:1 + dim]))
+            if i < len(out) and out[i].startswith("true") and p in held:
+                held.remove(p)
+        elif t[0] == "clear":
+            if i < step:
+                held, fill = [], []
+    prefix = script[:step + 2]
+    n = len(held)
+    q = held[0] if held else tuple([0] * dim)
+
+    def tail(vals):
+        t = ["size", "list", "nk %s %d" % (ps(q), len(vals) + 2), "nr %s %d" % (ps(q), HUGE)]
+        for x in vals[:40]:
+            t += ["nk %s 1" % ps(x), "nr %s 0" % ps(x)]
+        return t
+    cleared = ops[step].split()[0] == "clear"
+    filled = []
+    for ln in fill:
+        t = ln.split()
+        if t[0] == "add":
+            filled.append(tuple(map(int, t[1:1 + dim])))
+        else:
+            filled += [tuple(map(int, t[2 + j * dim:2 + (j + 1) * dim])) for j in range(int(t[1]))]
+    probes = []
+    if not cleared:
+        probes.append(("queries-on-contents", prefix + tail(held)))
+    pre = prefix if cleared else prefix + ["clear"]
+    probes.append(("clear-and-refill-verbatim", pre + fill + tail(filled)))
+    if not cleared or held:
+        probes.append(("clear-and-refill-held", pre + ["add " + ps(x) for x in held] + tail(held)))
+    probes.append(("clear-refill-twice", pre + fill + ["clear"] + fill + tail(filled)))
+    return probes
+
+
 # ---------------------------------------------------------------------------------- judging
-def run_impl(ck, hbin, script):
-    impl, rc, err = ck.run_bin(hbin, script, timeout=120)
+# The harness is built with ASan, whose quarantine keeps freed chunks out of circulation, so a stale address
+# (e.g. in GNAT's removed_ set) never meets a new element.  "reuse" mode switches the quarantine off so that
+# freed leaf buffers are handed out again at once, as with the plain glibc allocator; everything else
+# (bounds, leaks, UBSan) stays on.  Used for the refill generator class and the disagreement probes.
+REUSE_ENV = {"ASAN_OPTIONS": "detect_leaks=1:abort_on_error=0:exitcode=99:quarantine_size_mb=0:thread_local_quarantine_size_kb=0"}
+
+
+def run_impl(ck, hbin, script, reuse=False):
+    impl, rc, err = ck.run_bin(hbin, script, timeout=120, env=REUSE_ENV if reuse else None)
     return impl or [], rc, err
 
 
-def evaluate(ck, hbin, script):
-    out, rc, err = run_impl(ck, hbin, script)
+def evaluate(ck, hbin, script, reuse=False):
+    out, rc, err = run_impl(ck, hbin, script, reuse)
     res = oracle(script, out)
     if rc != 0 and res["fail"] is None:
         res["fail"] = (len(out), "harness exited with code %s: %s" % (rc, (err or "")[-300:]), "crash")
@@ -535,6 +637,13 @@ def classify(script, out, res):
     kv = parse_header(script[0])
     step, what, cls = res["fail"]
     rec = {"engine": ENGINE, "kind": kv["kind"], "metric": kv["metric"], "what": what, "class": cls}
+    # a removal cache that survives clear(): the dump right after a `clear` still shows |removed_| > 0
+    for i, ln in enumerate(script[1:]):
+        if (step < 0 or i <= step) and ln.split()[0] == "clear" and i < len(out):
+            parts = out[i].split(" | ")
+            if len(parts) >= 3 and " nrem=" in parts[2] and " nrem=0 " not in parts[2] + " ":
+                rec["class"] = "gnat-removal-cache-survives-clear" if cls != "crash" else cls
+                return rec
     if not realloc_prone(kv) or cls == "crash":
         return rec
     if res["stale_at"] is not None and (step < 0 or res["stale_at"] <= step):
@@ -568,7 +677,8 @@ def judge(ck, hbin, script, tag, lock):
         with lock:
             ck.count("scripts:skipped-after-3-alarms")
         return True
-    out, res = evaluate(ck, hbin, script)
+    reuse = tag == "refill"
+    out, res = evaluate(ck, hbin, script, reuse)
     kv = parse_header(script[0])
     corr = None
     if res["fail"] is None:
@@ -599,13 +709,15 @@ def judge(ck, hbin, script, tag, lock):
 
         def still(lines):
             s = [script[0]] + lines
-            o, r = evaluate(ck, hbin, s)
+            o, r = evaluate(ck, hbin, s, reuse)
             return r["fail"] is not None and classify(s, o, r)["class"] == want_cls
         small = [script[0]] + core.ddmin(script[1:], still, max_tests=250)
-        o, r = evaluate(ck, hbin, small)
+        o, r = evaluate(ck, hbin, small, reuse)
         if r["fail"] is None:
             small, o, r = script, out, res
         rec = classify(small, o, r)
+        if reuse:
+            rec["alloc"] = "reuse"
         with lock:
             new = ck.report(rec, script=small, expected=["spec: " + r["fail"][1]], observed=o, engine=ENGINE)
             if new:
@@ -647,9 +759,33 @@ def judge(ck, hbin, script, tag, lock):
             ck.log("GnatInv fails on a dump (%s); no failing query found" % what)
         return False
     if corr is not None:
+        # targeted search aimed by the disagreement: does the differing state make an observable answer wrong?
+        step, what, got, want = corr
+        for pname, probe, mode in [(a, b, m) for m in (False, True) for a, b in disagreement_probes(script, out, step, kv["metric"])]:
+            o2, r2 = evaluate(ck, hbin, probe, mode)
+            with lock:
+                ck.count("search:disagreement-probes:%s%s" % (pname, ":reuse" if mode else ""))
+            if r2["fail"] is None:
+                continue
+
+            def still(lines):
+                s2 = [script[0]] + lines
+                _o, r = evaluate(ck, hbin, s2, mode)
+                return r["fail"] is not None
+            small = [script[0]] + core.ddmin(probe[1:], still, max_tests=250)
+            o3, r3 = evaluate(ck, hbin, small, mode)
+            if r3["fail"] is None:
+                small, o3, r3 = probe, o2, r2
+            rec = classify(small, o3, r3)
+            if mode:
+                rec["alloc"] = "reuse"
+            with lock:
+                new = ck.report(rec, script=small, expected=["spec: " + r3["fail"][1], "model state: " + got[:300]], observed=o3, engine=ENGINE)
+                if new:
+                    ck.log("model/implementation disagreement (%s) and the probe '%s' fails: %s" % (what, pname, r3["fail"][1]))
+            return not new
         with lock:
             ck.disagreements += 1
-            step, what, got, want = corr
             ck.report({"engine": ENGINE, "what": "model/implementation disagreement"}, script=script[:step + 2],
                       expected=[got], observed=[want], found_input=False, engine=ENGINE,
                       obligation="correspondence nn (%s): %s at step %d" % (kv["kind"], what, step))
@@ -694,6 +830,12 @@ def run(ck):
     nper = 40 if ck.tier == "quick" else 400
     dnames = ["uniform", "dups", "lattice", "clusters"]
     metrics = list(METRICS)
+    # generator class remove-then-clear-then-refill (both GNAT variants)
+    nref = 40 if ck.tier == "quick" else 400
+    for kind in ("gnat", "gnatnts"):
+        for j in range(nref):
+            r = ck.rng.fork("refill-%s-%d" % (kind, j))
+            jobs.append((gen_refill(r, kind, metrics[j % 4], dnames[(j // 4) % 4]), "refill"))
     idx = 0
     for kind in KINDS:
         reps = nper * (3 if kind.startswith("gnat") else 1)
@@ -716,7 +858,10 @@ def replay(ck, data):
     hbin = build(ck)
     ck.lean_build([DRIVER])
     script = data["script"]
-    out, res = evaluate(ck, hbin, script)
+    reuse = (data.get("record") or {}).get("alloc") == "reuse"
+    if reuse:
+        print("(allocator in reuse mode: ASan quarantine off, see REUSE_ENV)")
+    out, res = evaluate(ck, hbin, script, reuse)
     for i, ln in enumerate(script[1:]):
         print("%-40s impl: %s" % (ln[:40], (out[i] if i < len(out) else "<missing>")[:300]))
     rc = 0
